@@ -2,6 +2,7 @@ package eval
 
 import (
 	"fmt"
+	"sort"
 	"strings"
 
 	"github.com/simimpact/srsim/pkg/logic/gcs/ast"
@@ -195,8 +196,14 @@ func (e *Eval) evalMap(m *ast.MapExpr, env *Env) (Obj, error) {
 		}
 		r.array = append(r.array, obj)
 	}
-	for k, v := range m.Fields {
-		obj, err := e.evalExpr(v, env)
+	// fields in key order: their expressions may draw random numbers, print or fail
+	keys := make([]string, 0, len(m.Fields))
+	for k := range m.Fields {
+		keys = append(keys, k)
+	}
+	sort.Strings(keys)
+	for _, k := range keys {
+		obj, err := e.evalExpr(m.Fields[k], env)
 		if err != nil {
 			return nil, err
 		}
